@@ -1,43 +1,128 @@
-(* C16 — Path and in-memory I/O are equivalent and honour the declared encoding. Statements only (PARTIAL by nature).
-   The model carries the adapters' decision logic; the file system [fs], the codec [enc]/[dec] (assumed lawful:
-   decoding what was encoded gives the text back) and what the driver computes from the text ([parse]) are section
-   parameters. CPython's codec tables, BOM handling, newline translation and OS path resolution are NOT modelled;
-   they are exercised by the correspondence check with a real temporary directory. *)
+(* C16 — Path and in-memory I/O are equivalent and honour the declared encoding. Statements only.
+   The model carries the adapters' decision logic. Part 1 is parametric in the file system [fs], the codec [enc]/[dec]
+   (assumed lawful), the newline translation [tr] of text-mode open() and what the driver computes from the text ([parse]).
+   Part 2 instantiates codec and translation with executable models of CPython's utf-8, latin-1, cp1252 and utf-16 codecs
+   and of universal-newline translation (Py/PyCodec.v, tied to CPython by the correspondence check), whose lawfulness is
+   proved (Proofs/CodecProofs.v): there the only parameters left are the file system and the parser. OS path resolution
+   is NOT modelled ([fs] is an arbitrary function); it is exercised by the check with a real temporary directory. *)
 From Coq Require Import String ZArith NArith List Bool Arith.
-From Cfi Require Import Glue.Sx Py.PyStr Model.IO Proofs.IOProofs.
+From Cfi Require Import Glue.Sx Py.PyStr Py.PyCodec Model.IO Proofs.IOProofs Proofs.CodecProofs.
 Import ListNotations.
 
 Section C16.
   Variable fs : str -> option (list N).
   Variable dec : list N -> option str.
   Variable enc : str -> option (list N).
+  Variable tr : str -> str.
   Variable A : Type.
   Variable parse : str -> A.
   Hypothesis codec : forall s b, enc s = Some b -> dec b = Some s.
+  Hypothesis dec_nil : dec [] = Some [].
 
   (* reading from a path gives the same as reading the decoded content passed directly (content that is not itself
-     the name of an existing file) *)
+     the name of an existing file, and that newline translation leaves alone: '\n' line ends) *)
   Theorem C16_read_equiv : forall p b s,
-    fs p = Some b -> dec b = Some s -> fs s = None ->
-    read_any fs dec A parse p = read_any fs dec A parse s.
-  Proof. exact (read_path_content fs dec A parse). Qed.
+    fs p = Some b -> dec b = Some s -> tr s = s -> fs s = None ->
+    read_any fs dec tr A parse p = read_any fs dec tr A parse s.
+  Proof. exact (read_path_content fs dec tr A parse). Qed.
 
-  (* writing to a path produces bytes that decode, with the declared encoding, to exactly the in-memory output *)
-  Theorem C16_write_equiv : forall text b, write_path enc text = Some b -> dec b = Some (write_mem text).
-  Proof. exact (write_path_decodes dec enc codec). Qed.
+  (* writing to a path (the chunks the elements write, in order) produces bytes that decode, with the declared encoding, to
+     exactly the in-memory output *)
+  Theorem C16_write_equiv : forall chunks b, write_path enc chunks = Some b -> dec b = Some (write_mem chunks).
+  Proof. exact (write_path_decodes dec enc codec dec_nil). Qed.
 
   (* a round trip through disk equals a round trip through memory *)
-  Theorem C16_roundtrip : forall text b p (fs' : str -> option (list N)),
-    write_path enc text = Some b -> fs' p = Some b -> fs' (write_mem text) = None ->
-    read_any fs' dec A parse p = read_any fs' dec A parse (write_mem text).
-  Proof. exact (disk_roundtrip dec enc A parse codec). Qed.
+  Theorem C16_roundtrip : forall (text : list str) b p (fs' : str -> option (list N)),
+    write_path enc text = Some b -> fs' p = Some b -> tr (write_mem text) = write_mem text -> fs' (write_mem text) = None ->
+    read_any fs' dec tr A parse p = read_any fs' dec tr A parse (write_mem text).
+  Proof. exact (disk_roundtrip dec enc tr A parse codec dec_nil). Qed.
 End C16.
 Print Assumptions C16_read_equiv.
 Print Assumptions C16_write_equiv.
 Print Assumptions C16_roundtrip.
 
-(* non-vacuity: the identity codec on a one-file file system *)
+(* ---------------------------------------------------------------------------------------------------------------
+   Part 2: the four encodings of the property, concretely. *)
+
+(* the modelled codecs are lawful: decoding what was encoded gives the text back (utf-16: BOM + little-endian units) *)
+Theorem C16_codec_lawful : forall e s b, encode_with e s = Some b -> decode_with e b = Some s.
+Proof. exact codec_lawful. Qed.
+Print Assumptions C16_codec_lawful.
+
+(* which texts can be written at all: utf-8 and utf-16 encode exactly the texts made of Unicode scalar values,
+   latin-1 exactly the texts of code points <= 255 *)
+Theorem C16_utf8_total : forall s,
+  (forall c, In c s -> (c < 1114112 /\ ~ (55296 <= c <= 57343))%N) -> exists b, utf8_encode s = Some b.
+Proof. exact utf8_encode_total_on_scalars. Qed.
+Print Assumptions C16_utf8_total.
+Theorem C16_utf16_total : forall s,
+  (forall c, In c s -> (c < 1114112 /\ ~ (55296 <= c <= 57343))%N) -> exists b, utf16_encode s = Some b.
+Proof. exact utf16_encode_total_on_scalars. Qed.
+Print Assumptions C16_utf16_total.
+Theorem C16_latin1_total : forall s, (exists b, latin1_encode s = Some b) <-> (forall c, In c s -> (c <= 255)%N).
+Proof. exact latin1_encode_total_iff. Qed.
+Print Assumptions C16_latin1_total.
+
+Theorem C16_decode_empty : forall e, decode_with e [] = Some [].
+Proof. intros e; destruct e; reflexivity. Qed.
+Print Assumptions C16_decode_empty.
+
+(* universal newlines: a text without carriage returns is left alone (and only such texts are) *)
+Theorem C16_newlines : forall s, translate_nl s = s <-> ~ In 13%N s.
+Proof. exact translate_nl_fixed_iff. Qed.
+Print Assumptions C16_newlines.
+
+(* text-mode read-back of what was written: exactly the text iff it has no carriage return *)
+Theorem C16_text_mode_read_back : forall e s b, encode_with e s = Some b ->
+  (option_map translate_nl (decode_with e b) = Some s <-> ~ In 13%N s).
+Proof. exact text_mode_read_back_exact. Qed.
+Print Assumptions C16_text_mode_read_back.
+
+Section C16_concrete.
+  Variable A : Type.
+  Variable parse : str -> A.
+  Variable e : encoding.
+
+  Theorem C16_read_equiv_concrete : forall (fs : str -> option (list N)) p b s,
+    fs p = Some b -> decode_with e b = Some s -> ~ In 13%N s -> fs s = None ->
+    read_any fs (decode_with e) translate_nl A parse p = read_any fs (decode_with e) translate_nl A parse s.
+  Proof.
+    intros fs p b s Hp Hd Hcr Hn.
+    exact (read_path_content fs (decode_with e) translate_nl A parse p b s Hp Hd (translate_nl_id s Hcr) Hn).
+  Qed.
+
+  Theorem C16_write_equiv_concrete : forall chunks b,
+    write_path (encode_with e) chunks = Some b -> decode_with e b = Some (write_mem chunks).
+  Proof. exact (write_path_decodes (decode_with e) (encode_with e) (codec_lawful e) (C16_decode_empty e)). Qed.
+
+  Theorem C16_roundtrip_concrete : forall (text : list str) b p (fs' : str -> option (list N)),
+    write_path (encode_with e) text = Some b -> fs' p = Some b -> ~ In 13%N (write_mem text) -> fs' (write_mem text) = None ->
+    read_any fs' (decode_with e) translate_nl A parse p =
+    read_any fs' (decode_with e) translate_nl A parse (write_mem text).
+  Proof.
+    intros text b p fs' Hw Hp Hcr Hn.
+    exact (disk_roundtrip (decode_with e) (encode_with e) translate_nl A parse (codec_lawful e) (C16_decode_empty e) text b p fs'
+             Hw Hp (translate_nl_id (write_mem text) Hcr) Hn).
+  Qed.
+
+  (* ... and where the property needs its "'\n' line ends" restriction: with a carriage return in the text the path read
+     sees the translated text, the in-memory read the text itself *)
+  Theorem C16_path_read_translates : forall (fs : str -> option (list N)) p b s,
+    fs p = Some b -> decode_with e b = Some s ->
+    read_any fs (decode_with e) translate_nl A parse p = Some (parse (translate_nl s)).
+  Proof. exact (fun fs => read_path_translated fs (decode_with e) translate_nl A parse). Qed.
+End C16_concrete.
+Print Assumptions C16_read_equiv_concrete.
+Print Assumptions C16_write_equiv_concrete.
+Print Assumptions C16_roundtrip_concrete.
+Print Assumptions C16_path_read_translates.
+
+(* non-vacuity: "ç€\n" written as utf-16 to the one file of a file system and read back by a parser that counts characters *)
 Example C16_example :
-  let fs := fun p : str => if str_eqb p (s2l "f"%string) then Some (s2l "x"%string) else None in
-  read_any fs (fun b => Some b) nat (@length N) (s2l "f"%string) = read_any fs (fun b => Some b) nat (@length N) (s2l "x"%string).
-Proof. vm_compute. reflexivity. Qed.
+  let text := [[231; 8364]; [10]]%N in
+  exists b, write_path (encode_with Utf16) text = Some b /\
+    let fs := fun p : str => if str_eqb p (s2l "f"%string) then Some b else None in
+    read_any fs (decode_with Utf16) translate_nl nat (@length N) (s2l "f"%string) = Some 3 /\
+    read_any fs (decode_with Utf16) translate_nl nat (@length N) (write_mem text) = Some 3 /\
+    write_path (encode_with Utf16) [] = Some [] /\ write_path (encode_with Utf16) [[]] = Some [255; 254]%N.
+Proof. eexists. split; [vm_compute; reflexivity|]. vm_compute. repeat split; reflexivity. Qed.
